@@ -11,7 +11,7 @@ worker spawns it, leaves its loop and drops its runtime; the real `block_on` pol
 once before that).  The receiver is cancelled -- it does not hang -- but "every accepted task finishes before
 `join` returns" (`sequential_all_finished_at_join`) holds in sequential mode only. -/
 def cexDrop : List Event :=
-  [.dispatch 0 1 ⟨0, .ok 7⟩, .joinStart, .recv 0 1, .exitLoop 0, .teardown 0, .joinReturn]
+  [.dispatch 0 1 ⟨0, .ok 7⟩, .joinStart, .joinPool, .recv 0 1, .exitLoop 0, .teardown 0, .joinReturn]
 
 theorem concurrent_join_drops_unstarted_counterexample :
     ∃ s, Reachable 1 true s ∧ s.joined = some none ∧ 1 ∈ s.accepted ∧ s.started 1 = 0 ∧
@@ -58,7 +58,7 @@ theorem stranded_until_join_counterexample :
 /-- A panic of a task *body* is contained in the task: the worker goes on, `join` returns `Ok`; only a panic
 of the worker thread itself is re-raised (`join_reraises_worker_panic`). -/
 def cexTaskPanic : List Event :=
-  [.dispatch 0 1 ⟨0, .panic⟩, .recv 0 1, .poll 0 1, .poll 0 1, .joinStart, .exitLoop 0, .teardown 0, .joinReturn]
+  [.dispatch 0 1 ⟨0, .panic⟩, .recv 0 1, .poll 0 1, .poll 0 1, .joinStart, .joinPool, .exitLoop 0, .teardown 0, .joinReturn]
 
 theorem task_panic_not_reraised_counterexample :
     ∃ s, Reachable 1 false s ∧ s.joined = some none ∧ s.ended 1 = 1 ∧ s.chan 1 = .cancelled := by
